@@ -147,16 +147,19 @@ Fixpoint run_tb (t : toolbox) (ops : list tbop) : bool :=
   end.
 
 Inductive case :=
-| CRun (h0 : heap) (roots : list value) (steps : list (op * desc))
+| CRun (wf : bool) (h0 : heap) (roots : list value) (steps : list (op * desc))
 | CFresh (h : heap) (root : value) (obs : desc)     (* description made by a fresh interpreter after unpickling *)
 | CTool (ops : list tbop).
 
 Definition check (c : case) : bool :=
   match c with
-  | CRun h0 roots steps =>
-      (* the initial description is canonical: describing it again changes nothing *)
+  | CRun wf h0 roots steps =>
+      (* the hypotheses of the theorems hold of the real graph (wf = false only when the harness stored an
+         attribute on a fitness object); the initial description is canonical: describing it again changes
+         nothing *)
       match describe (h0, roots) with
-      | Some (d, _) => desc_eqb d (h0, roots) && run_steps (h0, roots) steps
+      | Some (d, _) => Bool.eqb (deep_okb h0) wf && closedb h0 && forallb (insideb h0) roots &&
+                       desc_eqb d (h0, roots) && run_steps (h0, roots) steps
       | None => false
       end
   | CFresh h root obs =>
